@@ -349,6 +349,10 @@ func vxRecoveryCheck(db string, h vxHist, models []vxModel, acked int) (fails []
 						acked, j, models[j], pre, post)}), false
 			}
 		}
+		if acked >= len(h.Ops) {
+			return append(fails, vxFail{"C14 crash: final state differs from the model although every operation was acknowledged",
+				fmt.Sprintf("expected %s:\n  %s", pre, strings.Join(dPre, "\n  "))}), false
+		}
 		return append(fails, vxFail{"C14 crash: state after kill is neither before nor after the interrupted " + opName,
 			fmt.Sprintf("acknowledged %d operations\nvs state before the interrupted operation (%s):\n  %s\nvs state after it (%s):\n  %s",
 				acked, pre, strings.Join(dPre, "\n  "), post, strings.Join(dPost, "\n  "))}), false
